@@ -137,9 +137,10 @@ Definition sign_val (s : sign) : Z := match s with Positive => 1 | Negative => (
 (** take_sign: the sign and the remaining characters *)
 Definition take_sign (chars : list N) : option sign * list N :=
   match chars with
-  | 43 :: r => (Some Positive, r)
-  | 45 :: r => (Some Negative, r)
-  | _ => (None, chars)
+  | c :: r => if c =? 43 then (Some Positive, r)
+              else if c =? 45 then (Some Negative, r)
+              else (None, chars)
+  | [] => (None, chars)
   end.
 
 Inductive prefix_result :=
@@ -150,7 +151,10 @@ Inductive prefix_result :=
 (** take_prefix *)
 Definition take_prefix (chars : list N) : res verr (prefix_result * list N) :=
   let '(leading_zeros, chars) :=
-    match chars with 48 :: r => (true, r) | _ => (false, chars) end in
+    match chars with
+    | c :: r => if c =? 48 then (true, r) else (false, chars)      (* next_if_eq(&'0') *)
+    | [] => (false, chars)
+    end in
   match chars with
   | c :: rest =>
       if (c =? 98) || (c =? 66) then Ok (PInteger Binary leading_zeros, rest)
